@@ -34,10 +34,11 @@ is well-posed in floats (poles away from the circle, reflection coefficients
 away from +-1 with a margin far above the float error); otherwise the case is
 counted as unjudged.
 """
+import math
 from fractions import Fraction
 
 from audiolazy import ParCorError, ZFilter, levinson_durbin, parcor, \
-                      parcor_stable, z
+                      parcor_stable, z, CascadeFilter, ParallelFilter
 
 ID = "C11"
 
@@ -155,6 +156,10 @@ OUT = sorted(set(F(n, d) for d in range(1, 9) for n in range(-3 * d, 3 * d + 1)
 WILD = [F(1), F(-1), F(99, 100), F(-99, 100), F(101, 100), F(-101, 100),
         F(999, 1000), F(1, 100), F(-1, 1000), F(7), F(-12), F(10, 9),
         F(-9, 10), F(1, 2), F(-2), F(3, 2), F(-1, 3), F(2, 3), F(5, 4)]
+# a hair away from +-1 (but not on it): no ParCorError, a verdict.  Only in
+# short vectors: exact arithmetic on these is expensive.
+HAIR = [1 - F(1, 2 ** 30), -1 + F(1, 2 ** 26), 1 - F(1, 10 ** 8),
+        1 + F(1, 10 ** 8), -1 - F(1, 2 ** 28), 1 - F(1, 10 ** 12)]
 R0S = [F(1), F(2), F(1, 2), F(3), F(10), F(1, 3), F(7, 5), F(-1), F(-2, 3)]
 
 
@@ -166,9 +171,12 @@ def gain_class(g):
   return "|g|>1" if abs(g) > 1 else "|g|<1"
 
 
-def rand_real(rng, where):
+def rand_real(rng, where, hair=False):
   while True:
     d = rng.choice([1, 2, 3, 4, 5, 7, 8, 10, 10, 100])
+    if where != "on" and hair and rng.random() < 0.25:  # a hair off the circle
+      eps = F(1, rng.choice([10 ** 8, 2 ** 30, 10 ** 12, 2 ** 24]))
+      return rng.choice([-1, 1]) * (1 - eps if where == "in" else 1 + eps)
     if where == "in":
       p = F(rng.randint(-d + 1, d - 1) if d > 1 else 0, d)
     elif where == "on":
@@ -205,7 +213,7 @@ def rand_poles(rng):
     else:
       where = "out" if i == 0 else rng.choice(["in", "in", "on", "out"])
     if rng.random() < 0.5:
-      reals.append(rand_real(rng, where))
+      reals.append(rand_real(rng, where, hair=n <= 2))
     else:
       pairs.append(rand_pair(rng, where))
   if rng.random() < 0.12:
@@ -241,11 +249,7 @@ def integral_gain(rng, reals, pairs):
   a = monic_den(reals, pairs)
   lcm = 1
   for c in a:
-    d = c.denominator
-    g = lcm
-    while g % d:
-      g += lcm
-    lcm = g
+    lcm = math.lcm(lcm, c.denominator)
   return F(lcm * rng.choice([1, 1, -1, 2, 3]))
 
 
@@ -322,6 +326,8 @@ def cases(ctx):
       else:
         profile, pool, p = "wild", WILD, rng.randint(1, 8)
       ks = [rng.choice(pool) for _ in range(p)]
+      if profile == "wild" and p <= 3 and rng.random() < 0.5:
+        ks[rng.randrange(p)] = rng.choice(HAIR)
       if profile == "tame" and rng.random() < 0.25:
         ks[rng.randrange(p)] = F(0)        # sparse: float zero injection path
       if profile == "tame" and rng.random() < 0.05:
@@ -484,6 +490,25 @@ def run_stab(ctx, case):
       return True
     if not monic:
       ctx.count("stab:non-monic-verdict-right")
+    if ctype == "frac" and bool(got) == truth:
+      # the same poles reached through the filter-list classes (their
+      # denominator polynomial is the product of the sections', exactly, in
+      # Fractions): one section, two sections in cascade, two in parallel
+      cut = len(reals) // 2, len(pairs) // 2
+      f1 = build_filter(ctype, variant, gain, reals[:cut[0]], pairs[:cut[1]],
+                        num)
+      f2 = build_filter(ctype, "list", 1, reals[cut[0]:], pairs[cut[1]:], [1])
+      for what, bank in (("cascade1", CascadeFilter(filt)),
+                         ("cascade2", CascadeFilter(f1, f2)),
+                         ("parallel1", ParallelFilter([filt])),
+                         ("parallel2", ParallelFilter(f1, f2))):
+        gotb = parcor_stable(bank)
+        ctx.count("stab:filter-list-" + what)
+        if bool(gotb) != truth:
+          ctx.violation("parcor_stable/filter-list-verdict-differs", case,
+                        form=what, got=gotb, truth=truth,
+                        pole_moduli_squared=mags)
+          return True
 
   # ---- evidence for the float well-posedness rule: how far the float
   # reflection coefficients really are from the exact ones, against the
@@ -728,6 +753,8 @@ def finish(ctx):
   ctx.need("variant:list", 100)
   ctx.need("variant:expr", 100)
   ctx.need("stab:judged-frac-monic", 500)
+  for what in ("cascade1", "cascade2", "parallel1", "parallel2"):
+    ctx.need("stab:filter-list-" + what, 500)
   ctx.need("stab:judged-float-monic", 50)
   ctx.need("stab:float-k-monitored", 50)
   ctx.need("stab:judged-non-monic", 300)
